@@ -47,6 +47,7 @@ THEOREMS = [
     "Nix.C02.deleted_stay_deleted",
     "Nix.C02.deleted_not_listed",
     "Nix.C02.handle_independence",
+    "Nix.C02.handle_independence_partial",
     "Nix.C02.handle_independence_before_counterexample",
     "Nix.C02.bound_handle_write",
     "Nix.C02.bound_handle_write_before_counterexample",
